@@ -13,6 +13,8 @@ def main(argv):
         return 2
     pid = argv[0].upper()
     warnings.simplefilter('ignore')
+    import faulthandler, signal
+    faulthandler.register(signal.SIGUSR1, all_threads=True)      # kill -USR1 <pid> dumps the Python stacks
     mod = importlib.import_module(f"vt.props.{pid.lower()}")
     if argv[1] == '--replay':
         with open(argv[2]) as f:
